@@ -106,8 +106,8 @@ def run(tier: str) -> int:
                       "whitespace-only, trailing newline, markup-like fragments; expected output = Required(src) of the specification")
     try:
         cfgs = [gen_cfg("cfg/Lexer.tmpl", dict(T0="TextsHead", T1="TextsQuick",
-                                               T2="TextsTail", Bodies="BodiesQuick" if tier == "quick" else "BodiesFull",
-                                               First=ALLK, Second='{"output","short"}' if tier == "quick" else '{"output","assign","short"}',
+                                               T2="TextsTail", Bodies="BodiesQuick",
+                                               First=ALLK, Second='{"output","short"}',
                                                Dev="FALSE", Emit="INVARIANT Emit"), "lex"),
                 gen_cfg("cfg/Lexer.tmpl", dict(T0="TextsHead", T1="TextsHead", T2="TextsHead", Bodies="BodiesQuick", First='{"raw"}',
                                                Second='{"output"}', Dev="TRUE", Emit=""), "lexdev")]
